@@ -2,7 +2,7 @@
 real EDFScheduler / FIFOScheduler / LSFScheduler .schedule() and reports, canonicalised:
   init     availability of every resource entry of every worker before the call (the model's input)
   offered  the tasks the policy is offered (workload.get_schedulable_tasks with the policy's arguments)
-  result   [0, decisions] | [1, error code]; a decision is [0,t] cancel | [1,t,pool,strategy,time] | [2,t]
+  result   [0, decisions] | [1, error code] (2 AttributeError, 3 ValueError, 99 other); a decision is [0,t] cancel | [1,t,pool,strategy,time] | [2,t]
   virtual  availability of the policy's virtual pools after the call (captured copy()/deepcopy() result)
   unchanged / diff   every getter of the live cluster and of the tasks, compared before/after
 Names, never UUIDs; indices are positions in the case's own lists.
@@ -85,13 +85,17 @@ def build(case):
         s = strategies[r["strat"] % len(strategies)]
         if not worker.can_accomodate_strategy(s):
             continue
+        try:        # (a refused or raising placement only means: this task is not resident in this case)
+            ok = pool.place_task(task, execution_strategy=s, worker_id=worker.id)
+        except (ValueError, RuntimeError):
+            ok = False
+        if not ok:
+            continue
         start = max(r["start"], t["release"])
         task.schedule(et(start), Placement.create_task_placement(task=task, placement_time=et(start), worker_pool_id=pool.id,
                                                                  execution_strategy=s))
         task.start(et(start))
         task.update_remaining_time(et(r["remaining"]))
-        ok = pool.place_task(task, execution_strategy=s, worker_id=worker.id)
-        assert ok
         resident.append(ti)
     tgs = {}
     for g in sorted(graphs):
@@ -205,6 +209,9 @@ def run_case(case):
         except AttributeError as e:
             out["result"] = [1, 2]
             out["error"] = repr(e)[:200]
+        except ValueError as e:
+            out["result"] = [1, 3]
+            out["error"] = repr(e)[:300]
         except Exception as e:  # noqa: BLE001  any other exception is a value, too
             out["result"] = [1, 99]
             out["error"] = repr(e)[:300]
